@@ -13,6 +13,10 @@
 //          7 smove          solver = Solver(std::move(solver)) (move construction + move assignment)
 //          8 psolve i t     Solve(dt, state[i], parameters) with another parameter set (t = 0: two-stage, 1: six-stage
 //                           Rosenbrock; backward Euler: its default set); that set becomes the solver's
+//          9 get2 i         state[i] = other_solver.GetState(): a solver of the same C++ type with one more grid cell
+//                           (States of that shape can be copied, moved and set; `solver` does not solve them)
+// Every solve is compared bit for bit with the same problem solved by a reference solver that is never moved
+// (and is given the same parameter set whenever op 8 changes the solver's), on a fresh State of its own.
 // A State slot that was never filled, or was moved from, is skipped by set / solve / copy (the model
 // side does the same), so that every executed operation is legal C++ for a type with value semantics.
 #include "common/caseio.hpp"
@@ -44,30 +48,54 @@ static void vsem_case(Toks& tk, Out& out, Params params)
   Process r1 = Process::Create().SetReactants({ a }).SetProducts({ Yields(b, 1) }).SetRateConstant(ArrheniusRateConstant({ .A_ = 0.5 })).SetPhase(gas);
   Process r2 = Process::Create().SetReactants({ b, b }).SetProducts({ Yields(c, 2) }).SetRateConstant(ArrheniusRateConstant({ .A_ = 0.25 })).SetPhase(gas);
   const std::size_t ncells = 2;
-  auto make_solver = [&]()
+  auto make_solver_with = [&](const Params& ps, std::size_t cells)
   {
-    return Builder(params)
+    return Builder(ps)
         .SetSystem(System(SystemParameters{ .gas_phase_ = gas }))
         .SetReactions({ r1, r2 })
-        .SetNumberOfGridCells((int)ncells)
+        .SetNumberOfGridCells((int)cells)
         .Build();
   };
-  auto solver = make_solver();
-  using SolverT = decltype(solver);
+  auto make_solver = [&]() { return make_solver_with(params, ncells); };
+  // a solver with another parameter set: the target of the move assignment in op 7 must forget its own
+  auto other_params = [&]()
+  {
+    Params ps = params;
+    if constexpr (std::is_same_v<Params, micm::RosenbrockSolverParameters>)
+    {
+      ps = micm::RosenbrockSolverParameters::SixStageDifferentialAlgebraicRosenbrockParameters();
+      ps.h_start_ = 1.0e-3;
+    }
+    else
+      ps.h_start_ = 0.25;
+    return ps;
+  };
+  std::optional<decltype(make_solver())> solver_box;
+  solver_box.emplace(make_solver());
+  auto& solver = *solver_box;                    // re-created in place by op 7 (same storage)
+  auto ref_solver = make_solver();               // never moved
+  auto solver2 = make_solver_with(params, ncells + 1);
+  using SolverT = std::remove_reference_t<decltype(solver)>;
   using StateT = decltype(solver.GetState());
   std::vector<std::optional<StateT>> st(4);
   std::vector<bool> live(4, false);
+  std::vector<int> shape(4, 0);                  // 0: the solver's dimensions, 1: solver2's
   auto load = [&](StateT& s, int v)
   {
-    for (std::size_t cell = 0; cell < ncells; ++cell)
+    const std::size_t nc = s.variables_.NumRows();
+    for (std::size_t cell = 0; cell < nc; ++cell)
     {
       s.conditions_[cell].temperature_ = 300;
       s.conditions_[cell].pressure_ = 101325;
       s.conditions_[cell].air_density_ = 1;
     }
-    s.SetConcentration(a, std::vector<double>{ 1.0 + v, 0.5 * v });
-    s.SetConcentration(b, std::vector<double>{ 0.25 * v, 2.0 });
-    s.SetConcentration(c, std::vector<double>{ 0.0, 1.0 * v });
+    std::vector<double> va{ 1.0 + v, 0.5 * v, 0.75 }, vb{ 0.25 * v, 2.0, 1.5 }, vc{ 0.0, 1.0 * v, 0.125 };
+    va.resize(nc);
+    vb.resize(nc);
+    vc.resize(nc);
+    s.SetConcentration(a, va);
+    s.SetConcentration(b, vb);
+    s.SetConcentration(c, vc);
   };
   long long nops = tk.i();
   for (long long k = 0; k < nops; ++k)
@@ -81,6 +109,7 @@ static void vsem_case(Toks& tk, Out& out, Params params)
         st[i].emplace(solver.GetState());
         load(*st[i], i);
         live[i] = true;
+        shape[i] = 0;
         out.tok("g");
         break;
       }
@@ -116,6 +145,7 @@ static void vsem_case(Toks& tk, Out& out, Params params)
           live[j] = false;
         }
         live[i] = true;
+        shape[i] = shape[j];
         out.tok(op == 1 ? "cc" : op == 2 ? "ca" : op == 3 ? "mc" : "ma");
         break;
       }
@@ -134,7 +164,7 @@ static void vsem_case(Toks& tk, Out& out, Params params)
       case 6:
       {
         int i = (int)tk.i();
-        if (!live[i])
+        if (!live[i] || shape[i] != 0)
         {
           out.tok("-");
           break;
@@ -144,15 +174,15 @@ static void vsem_case(Toks& tk, Out& out, Params params)
         for (int j = 0; j < 4; ++j)
           if (live[j] && j != i)
             before[j] = st[j]->variables_.AsVector();
-        auto fresh = solver.GetState();
+        auto fresh = ref_solver.GetState();
         for (std::size_t cell = 0; cell < ncells; ++cell)
         {
           fresh.conditions_[cell] = st[i]->conditions_[cell];
           for (std::size_t s = 0; s < 3; ++s)
             fresh.variables_[cell][s] = st[i]->variables_[cell][s];
         }
-        solver.CalculateRateConstants(fresh);
-        auto rf = solver.Solve(1.0, fresh);
+        ref_solver.CalculateRateConstants(fresh);
+        auto rf = ref_solver.Solve(1.0, fresh);
         solver.CalculateRateConstants(*st[i]);
         auto rs = solver.Solve(1.0, *st[i]);
         out.tok(rs.state_ == SolverState::Converged ? "S" : "s?");
@@ -170,27 +200,45 @@ static void vsem_case(Toks& tk, Out& out, Params params)
       case 8:
       {
         int i = (int)tk.i(), t = (int)tk.i();
-        if (!live[i])
+        if (!live[i] || shape[i] != 0)
         {
           out.tok("-");
           break;
         }
-        solver.CalculateRateConstants(*st[i]);
+        Params ps = params;
         if constexpr (std::is_same_v<Params, micm::RosenbrockSolverParameters>)
-          solver.Solve(1.0, *st[i],
-                       t == 0 ? micm::RosenbrockSolverParameters::TwoStageRosenbrockParameters()
-                              : micm::RosenbrockSolverParameters::SixStageDifferentialAlgebraicRosenbrockParameters());
+          ps = t == 0 ? micm::RosenbrockSolverParameters::TwoStageRosenbrockParameters()
+                      : micm::RosenbrockSolverParameters::SixStageDifferentialAlgebraicRosenbrockParameters();
         else
-          solver.Solve(1.0, *st[i], Params{});
+          ps = Params{};
+        solver.CalculateRateConstants(*st[i]);
+        solver.Solve(1.0, *st[i], ps);
+        {
+          // the reference solver follows the change of parameter set
+          auto dummy = ref_solver.GetState();
+          load(dummy, 1);
+          ref_solver.CalculateRateConstants(dummy);
+          ref_solver.Solve(1.0, dummy, ps);
+        }
         out.tok("P");
+        break;
+      }
+      case 9:
+      {
+        int i = (int)tk.i();
+        st[i].emplace(solver2.GetState());
+        load(*st[i], i);
+        live[i] = true;
+        shape[i] = 1;
+        out.tok("g");
         break;
       }
       case 7:
       {
         SolverT moved(std::move(solver));
-        SolverT other = make_solver();
-        other = std::move(moved);
-        solver = std::move(other);
+        SolverT other = make_solver_with(other_params(), ncells);
+        other = std::move(moved);                 // move assignment onto a solver with another parameter set
+        solver_box.emplace(std::move(other));     // move construction
         out.tok("M");
         break;
       }
